@@ -160,6 +160,44 @@ $GEN{$NH(a int)}{int}{
 	}
 	$RET
 }`, entries: []*Entry{drive("$NH", "int", 1, nil)}},
+	// (the reference rendering moves the body into a func literal, where a partial redeclaration of a PARAMETER would itself
+	// declare a new variable: those statements are written as plain assignments on the reference side)
+	// partial redeclarations of PARAMETERS / receivers / named results (they have no declaring statement in the body) before
+	// any yield, the re-used name never read afterwards; and after a suspension that is a YieldFrom, not a Yield
+	{name: "mixed-define-redeclared-parameter-and-after-yieldfrom", decls: baseGen + `
+type $NL struct {
+	Val  int
+	Next *$NL
+}
+
+$GEN{(l *$NL) Head()}{int}{
+	$SONLY{v, l := l.Val, l.Next}$RONLY{v := l.Val; l = l.Next}
+	$YIELD{v}
+	$RET
+}
+
+$GEN{$NH(a int)}{int}{
+	$SONLY{h, a := a*2, 7}$RONLY{h := a * 2; a = 7}
+	$YIELD{h}
+	n := 0
+	get := func() int { return n }
+	$YFROM{$NG(1)}
+	n, m := 5+h, 6
+	$YIELD{get() + m}
+	for x := range $RANGE{(&$NL{3, nil}).Head()} {
+		$YIELD{x}
+	}
+	$RET
+}
+
+$GEN{$NK(s int)}{int}{
+	$SONLY{first, s, ok := s%10, s/10, s > 9}$RONLY{first, ok := s%10, s > 9; s = s / 10}
+	if ok {
+		$YIELD{first}
+	}
+	$YIELD{first + 1}
+	$RET
+}`, entries: []*Entry{drive("$NH", "int", 1, nil), drive("$NK", "int", 1, [][]int{{5}, {42}})}},
 	// partial redeclarations whose re-used variable needs the typed context of the assignment (untyped constants, nil)
 	{name: "mixed-define-redeclared-typed-variable-with-untyped-constant", decls: baseGen + `
 $GEN{$NH(a int)}{int}{
